@@ -138,11 +138,13 @@ def run(ctx):
         if not cov.get("Next_S") or cov["Next_S"][1] == 0:
             raise tlc.MachineryError("SRead never taken in model %s: %s" % (label, cov))
         graphs.append((label, nodes, edges, init))
-    wconsts = _consts((0, 8), (0,), 1, 3, both, 3, ("p",), False)
-    wres = tlc.run_tlc("Segments", _cfg(ctx, "witness.cfg", wconsts, WITNESSES), ctx.scratch, timeout=900, extra=("-continue",))
-    reached = set(re.findall(r"Invariant (\w+) is violated", wres.out))
+    wconsts = _consts((0, 3), (), 1, 3, both, 2, ("c",), False)
+    wcfg = tlc.write_cfg(os.path.join(ctx.scratch, "witness.cfg"), init="Init_S", next="Next_S", constants=wconsts,
+                         constraints=["WitnessScan_S"], deadlock=False)
+    wres = tlc.check_model("Segments", wcfg, ctx.scratch, timeout=900, workers=1)
+    reached = set(v[1] for v in wres.printed("WITNESS") if isinstance(v, tuple) and len(v) == 2)
     if reached != set(WITNESSES):
-        raise tlc.MachineryError("vacuity witnesses not reachable: %s\n%s" % (sorted(set(WITNESSES) - reached), wres.out[-1500:]))
+        raise tlc.MachineryError("vacuity witnesses not reachable: %s" % sorted(set(WITNESSES) - reached))
     ctx.note("vacuity_witnesses_reached", len(WITNESSES))
     if not ctx.quick:
         big = _consts((0, 2, 3, 8), (0,), 3, 3, both, 5, (), False)
